@@ -1,4 +1,5 @@
 import Model.Basic
+import Lean.Meta.Tactic.Simp.RegisterCommand
 /-!
 # Model.GoPrelude — the few Go primitives the imperative translator (harness/cmd/extract/translate2.go) maps to
 
@@ -7,6 +8,10 @@ its keys in insertion order; a `map[string]string` is an association list.  A sl
 `xs[a:b]` is `slice? xs a b`: `none` stands for Go's run-time panic (bounds are checked against the length;
 Go checks the upper bound against the capacity, which is not modelled, so `none` is conservative).
 -/
+/-- unexported helper functions of the library that the translator met in a translated function: the equality
+    proofs unfold them with `simp only [gohelper]` -/
+register_simp_attr gohelper
+
 namespace Model.Go
 
 /-- `m[k] = true` / `m[k] = struct{}{}` -/
